@@ -121,6 +121,15 @@ def rules(ctx):
                 and isinstance(a.value.slice, ast.Slice) and len(c.args) == 1 and (
                     (a.value.slice.lower is None and const_num(a.value.slice.upper) is not None and const_num(a.value.slice.upper) < 0) or
                     (a.value.slice.upper is None and const_num(a.value.slice.lower) is not None and const_num(a.value.slice.lower) > 0))
+            if not shorter and isinstance(a, ast.Starred) and isinstance(a.value, ast.Name) and len(c.args) == 1:
+                # `*rest, last = operands` (or `first, *rest = operands`): rest is strictly shorter
+                for n_ in ast.walk(fn.node):
+                    if isinstance(n_, ast.Assign) and len(n_.targets) == 1 and isinstance(n_.targets[0], (ast.Tuple, ast.List)) \
+                            and is_name(n_.value, va):
+                        elts = n_.targets[0].elts
+                        star = [e for e in elts if isinstance(e, ast.Starred) and is_name(e.value, a.value.id)]
+                        if star and len(elts) >= 2:
+                            shorter = True
             ctx.inst('R07.3', fn, c, shorter,
                      "recursion on a strictly shorter operand tuple" if shorter else
                      "recursive call `%s` is not on a strictly shorter slice of the operands" % src(c))
